@@ -226,6 +226,12 @@ def evaluate_disagrees(root, exact_eval=None):
                 break
         if not small:
             continue
+        # evaluate() works in doubles: where some sgn argument is zero up to rounding, its sign legitimately differs from
+        # the sign of the exact value (sgn(-0.010000000000000002 + 0.1 * 0.1) is 0 in doubles, -1 exactly)
+        from . import equiv as _Q
+
+        if _Q.near_discontinuity(root, {k: Fraction(v) for k, v in env.items()}):
+            continue
         try:
             got = root.evaluate(env)
         except Exception:
